@@ -4397,7 +4397,7 @@ def bundle_readpath(P, R, L):
 
 def bundle_recovery(P, R, L):
     """what a reopen restores"""
-    R.clause("RECOVER", "recovery bundle: GRD-1 / ORD-6 (which WALs are replayed, in sorted order), ORD-8c (recovered sequence), ROLE-4 (persisted counters), "
+    R.clause("RECOVER", "recovery bundle: GRD-33 / AGR-3 (the batch decoder advances by what it consumed; length guards stay below the encoder's minimum), GRD-1 / ORD-6 (which WALs are replayed, in sorted order), ORD-8c (recovered sequence), ROLE-4 (persisted counters), "
              "GRD-11 (block offset of a re-used log), GRD-12 (only completely consumed logs are re-used), TS-1 / GRD-6 (log reader), FS-1 (create_file modes)")
     R.once(ord8c_recovered_sequence, P, R, L)
     R.once(role4_counters, P, R, L)
@@ -4412,6 +4412,8 @@ def bundle_recovery(P, R, L):
     from . import c02
     R.once(c02.grd1_replay, P, R, L)
     agr2_codec_pairs(P, R, L, groups=("batch", "log", "manifest"))
+    R.once(grd33_decoder_reports_consumed_bytes, P, R, L)
+    R.once(agr3_minimum_length_guards, P, R, L)
     R.once(grd26_reused_flag_truthful, P, R, L)
     R.once(grd28_last_wal_flag, P, R, L)
     R.once(pair17_recovery_flush_forces_manifest, P, R, L)
@@ -4447,6 +4449,7 @@ def bundle_no_assertion_trips(P, R, L):
     R.once(pair9_levels, P, R, L)
     R.once(grd16_trivial_move, P, R, L)
     R.once(role5_version_builder, P, R, L)
+    R.once(own13_edit_lists, P, R, L)
     R.once(grd14_manual_inputs, P, R, L, parts=("nonempty",))
     R.once(pair10_builder_slot, P, R, L)
     R.once(ord17_manual_slot, P, R, L)
@@ -6148,3 +6151,202 @@ def list1_iteration_covers_the_list(P, R, L, rule="LIST-1"):
     if nx:
         R.check(rule, "utils::linked_list::NodeIter::next|advances-along-next", st_next >= 1 and not bad, where(nx[0]),
                 "the cursor moves to the `next` link of the node it yields", "stores to the cursor %d; offending origins %s" % (st_next, bad[:2]))
+
+
+# ------------------------------------------------------------------------------------------- OWN-13 who may change the two lists of a version edit
+def mut_field_sites(P, adt, field):
+    """(function path, line) of every statement outside unwind paths that assigns to, or takes a `&mut` of, field `field` of `adt`
+    (closures are reported under the function they are written in)"""
+    out = []
+    for p, b in sorted(P.bodies.items()):
+        for bb in range(b.n):
+            if b.is_cleanup(bb):
+                continue
+            for st in b.blocks[bb]["stmts"]:
+                if st["k"] != "assign":
+                    continue
+                pls = [st["pl"]]
+                if st["rv"]["k"] in ("ref", "rawptr") and st["rv"].get("mut"):
+                    pls.append(st["rv"]["pl"])
+                else:
+                    pls = [st["pl"]] if any(isinstance(e, dict) and "f" in e for e in st["pl"]["p"]) else []
+                for pl in pls:
+                    if any(isinstance(e, dict) and e.get("n") == field and e.get("a") == adt for e in pl["p"]):
+                        out.append((p.split("::{closure")[0], st.get("line")))
+    return out
+
+
+EDIT_FIELD_OWNERS = [
+    ("versioning::version_manifest::VersionChangeManifest", "deleted_files", ("::remove_file", "TryFrom", "Default")),
+    ("versioning::version_manifest::VersionChangeManifest", "new_files", ("::add_file", "TryFrom", "Default")),
+]
+
+
+def own13_edit_lists(P, R, L, rule="OWN-13"):
+    """A version edit's list of added files is only changed by add_file and its list of deleted files only by remove_file (and by
+    the decoder): an edit that moves a file between levels (trivial move) both deletes and adds the same file number, so
+    neither operation may cancel the other."""
+    n = 0
+    for adt, field, owners in EDIT_FIELD_OWNERS:
+        sites = mut_field_sites(P, adt, field)
+        n += len(sites)
+        for fn in sorted({s[0] for s in sites}):
+            ok = any(o in fn for o in owners)
+            R.check(rule, "%s|mutates=%s" % (fn, field), ok, "%s:%s" % (P.bodies[fn].file if fn in P.bodies else "-", [s[1] for s in sites if s[0] == fn][0]),
+                    "`%s` of a version edit is only changed by %s" % (field, " / ".join(o.strip(":") for o in owners)), fn)
+    R.floor(rule, "mutation sites of the edit lists", n, 2)
+
+
+# ------------------------------------------------------------------------------------------- OWN-14 the outcome slot of a queued writer
+def own14_writer_outcome_slot(P, R, L, rule="OWN-14"):
+    """writers::Writer: the outcome slot (`operation_result`) is written only by set_operation_result, unconditionally and with the value
+    it was given (a leader hands the group's outcome to each follower through it; the follower returns what it finds there), and
+    the completion flag (`operation_completed`) only by set_operation_completed with the value it was given."""
+    ADT = "writers::WriterInner"
+    for field, setter in (("operation_result", "writers::Writer::set_operation_result"), ("operation_completed", "writers::Writer::set_operation_completed")):
+        sites = mut_field_sites(P, ADT, field)
+        b = P.body(setter)
+        if b is None:
+            R.missing_anchor(rule, setter)
+            continue
+        R.analysed(b)
+        others = sorted({s[0] for s in sites if s[0] != setter and not s[0].endswith("::new")})
+        st = field_stores(b, field, adt=ADT)
+        direct = [s for s in st if any(o.kind == "param" and o.name == 2 for o in origins(b, s[2]["rv"]["ops"][0] if s[2]["rv"]["k"] == "use" else s[2]["pl"])) or
+                  (s[2]["rv"]["k"] == "aggregate" and any(o.kind == "param" and o.name == 2 for op in s[2]["rv"]["ops"] for o in origins(b, op)))]
+        uncond = bool(direct) and all(b.must_pass(r, through_nodes=[s[0] for s in direct]) for r in b.return_blocks())
+        borrowed = [s for s in sites if s[0] == setter and s[1] not in [x[2].get("line") for x in st]]
+        ok = not others and uncond and len(st) == len(direct) and not borrowed
+        R.check(rule, "%s|slot=%s" % (setter, field), ok, where(b),
+                "`%s` is assigned only here, on every path, from the value passed in" % field,
+                "other writers %s; assignments %d (from the parameter %d, on every path %s); mutable borrows %d" % (others, len(st), len(direct), uncond, len(borrowed)))
+
+
+# ------------------------------------------------------------------------------------------- GRD-33 a decoder reports what it consumed
+def _expr_leaves(body, op, depth=6, seen=None):
+    """leaf origins of an arithmetic expression (binops are looked through)"""
+    out = []
+    seen = seen if seen is not None else set()
+    for o in origins(body, op):
+        if o.kind in ("binop", "unop") and o.extra and depth > 0:
+            key = (o.extra[0], id(o.extra[1]))
+            if key in seen:
+                continue
+            seen.add(key)
+            for x in o.extra[1]["rv"]["ops"]:
+                out += _expr_leaves(body, x, depth - 1, seen)
+        else:
+            out.append(o)
+    return out
+
+
+def grd33_decoder_reports_consumed_bytes(P, R, L, rule="GRD-33"):
+    """BatchElement::read_element returns (element, bytes read) and Batch::try_from advances its cursor by that count: the count
+    must be MEASURED on the input buffer (every leaf of its expression is a constant or a call on the buffer parameter, e.g.
+    `starting_len - buf.len()`), never re-derived from the decoded element - a formula that disagrees with the codec by one
+    byte shifts every following element of a multi-operation batch."""
+    fn = "batch::BatchElement::read_element"
+    b = P.body(fn)
+    if b is None:
+        R.missing_anchor(rule, fn)
+        return
+    R.analysed(b)
+    n, bad = 0, []
+    for bb in range(b.n):
+        if b.is_cleanup(bb):
+            continue
+        for st in b.blocks[bb]["stmts"]:
+            if st["k"] == "assign" and st["rv"]["k"] == "aggregate" and st["rv"].get("ak") == "tuple" and len(st["rv"]["ops"]) == 2 and \
+                    "usize" in b.local_ty(st["pl"]["l"]) and not st["pl"]["p"]:
+                n += 1
+                for o in _expr_leaves(b, st["rv"]["ops"][1]):
+                    if o.kind == "const":
+                        continue
+                    from_buf = o.kind == "call" and o.site is not None and o.site.args and \
+                        any(x.kind == "param" and x.name == 1 for x in origins(b, o.site.args[0]))
+                    if not from_buf:
+                        bad.append(repr(o))
+    R.check(rule, fn + "|count-measured-on-the-buffer", n >= 1 and not bad, where(b),
+            "the byte count returned with the element is computed from lengths of the input buffer only", "tuples %d; foreign leaves %s" % (n, sorted(set(bad))[:3]))
+    tf = P.body("<batch::Batch as std::convert::TryFrom<&[u8]>>::try_from")
+    if tf is None:
+        R.missing_anchor(rule, "Batch::try_from")
+        return
+    R.analysed(tf)
+    # the cursor is advanced by exactly that count: the slice start `buf[n..]` derives from field .1 of read_element's result
+    adv = [c for c in tf.calls() if not tf.is_cleanup(c.bb) and ("ops::Index" in (c.declared_name or "") or "slice::index" in (c.name or "")) and len(c.args) >= 2]
+    def from_count(op):
+        """the slice start is field .1 of read_element's result (through the RangeFrom / Range aggregate)"""
+        for o in origins(tf, op):
+            if o.kind == "call" and o.name == fn and o.path and str(o.path[-1]) == "1":
+                return True
+            if o.kind == "agg" and o.extra and "Range" in (o.name or ""):
+                if any(from_count(x) for x in o.extra[1]["rv"]["ops"][:1]):
+                    return True
+        return False
+    okadv = bool(adv) and all(from_count(c.args[1]) for c in adv)
+    R.check(rule, tf.path + "|cursor-advanced-by-the-reported-count", okadv, where(tf),
+            "the batch decoder moves on by the count read_element reported", "index sites %d" % len(adv))
+
+
+# ------------------------------------------------------------------------------------------- AGR-3 a decoder's minimum-length guard vs. the encoder's minimum output
+_WIDTH = {"u8": 1, "i8": 1, "u16": 2, "i16": 2, "u32": 4, "i32": 4, "u64": 8, "i64": 8, "usize": 8}
+MIN_SIZE_PAIRS = [
+    ("write batch", "batch::<impl std::convert::From<&batch::Batch> for %s>::from", "<batch::Batch as std::convert::TryFrom<&[u8]>>::try_from"),
+    ("internal key", "<key::InternalKey as key::RainDbKeyType>::as_bytes", "<key::InternalKey as std::convert::TryFrom<%s>>::try_from"),
+    ("block handle", "tables::block_handle::<impl std::convert::From<&tables::block_handle::BlockHandle> for %s>::from", "tables::block_handle::BlockHandle::deserialize"),
+]
+
+
+def agr3_minimum_length_guards(P, R, L, rule="AGR-3"):
+    """A decoder may reject an input as too short only below the SHORTEST output its encoder can produce: that minimum is the sum
+    of the integer codecs the encoder applies unconditionally (fixed-width: their width, varint: one byte).  A guard taken
+    from LevelDB's 12-byte batch header rejects RainDB's 9-byte empty batch and 11-byte `delete(\"\")` record."""
+    n = 0
+    for what, enc, dec in MIN_SIZE_PAIRS:
+        enc, dec = (enc % _VEC if "%s" in enc else enc), (dec % _VEC if "%s" in dec else dec)
+        e, d = P.body(enc), P.body(dec)
+        if e is None or d is None:
+            R.missing_anchor(rule, enc if e is None else dec)
+            continue
+        R.analysed(e, d)
+        mn = 0
+        for c in e.calls():
+            dn = c.declared_name or c.name or ""
+            if e.is_cleanup(c.bb) or not dn.startswith("integer_encoding::"):
+                continue
+            if not all(e.must_pass(r, through_nodes=[c.bb]) for r in e.return_blocks()) or in_cycle(e, c.bb):
+                continue
+            ty = (c.t.get("substs") or ["?"])[-1]
+            mn += _WIDTH.get(ty, 1) if "Fixed" in dn else 1
+        n += 1
+        bad = []
+        is_len = lambda os: any(o.kind == "call" and o.name.endswith("::len") and o.site is not None and o.site.args and
+                                any(x.kind == "param" and x.name == 1 for x in origins(d, o.site.args[0])) for o in os)
+        for cmp_ in comparisons(d):
+            lo, ro = cmp_.lhs_origins(), cmp_.rhs_origins()
+            for (a, k, op) in ((lo, ro, cmp_.op), (ro, lo, {"lt": "gt", "le": "ge", "gt": "lt", "ge": "le", "eq": "eq", "ne": "ne"}[cmp_.op])):
+                if not is_len(a):
+                    continue
+                cs = [o for o in k if o.kind == "const"]
+                for o in cs:
+                    try:
+                        cval = int(str(o.name))
+                    except ValueError:
+                        continue
+                    # edges on which `len < cval` / `len <= cval` holds
+                    rej = []
+                    if op in ("lt", "le"):
+                        rej, lim = [(cmp_.bb, t) for t in cmp_.true_t], (cval if op == "lt" else cval + 1)
+                    elif op in ("ge", "gt"):
+                        rej, lim = [(cmp_.bb, t) for t in cmp_.false_t], (cval if op == "ge" else cval + 1)
+                    else:
+                        continue
+                    errs = [r for r in d.return_blocks() if r not in (_ok_blocks(d) or [])]
+                    rejecting = any(all(x in errs or x not in d.return_blocks() for x in d.reachable(t)) and
+                                    any(x in errs for x in d.reachable(t)) for (_, t) in rej)
+                    if rejecting and lim > mn:
+                        bad.append("rejects inputs shorter than %d bytes (line %s)" % (lim, cmp_.line))
+        R.check(rule, dec + "|no-guard-above-the-encoder-minimum", not bad, where(d),
+                "%s: the decoder rejects for length only below the encoder's minimum output (%d bytes)" % (what, mn), "; ".join(bad) or "ok")
+    R.floor(rule, "encoder/decoder pairs with a computed minimum", n, 3)
